@@ -186,7 +186,104 @@ func fmtNum(r *hx.Rng) string {
 	}
 }
 
+// genStrip: vertex data declared step by step BETWEEN the faces of one group (a growing strip: declare a few
+// v / vt / vn, use them together with old ones, declare more, ...), several such groups sharing the tables.
+// Small indices, every table entry distinct, so a corner that resolves to another corner's vertex (any
+// de-duplication key that depends on how much has been declared so far) changes the observation.
+func genStrip(r *hx.Rng, run *hx.Run) string {
+	var b strings.Builder
+	nv, nt, nn := 0, 0, 0
+	decl := func(kv, kt, kn int) {
+		// the three kinds in a random order
+		for _, k := range r.Perm(3) {
+			switch k {
+			case 0:
+				for i := 0; i < kv; i++ {
+					nv++
+					fmt.Fprintf(&b, "v %d %d %d\n", nv, 3*nv, -nv)
+				}
+			case 1:
+				for i := 0; i < kt; i++ {
+					nt++
+					fmt.Fprintf(&b, "vt %d %d.5\n", nt, nt)
+				}
+			case 2:
+				for i := 0; i < kn; i++ {
+					nn++
+					fmt.Fprintf(&b, "vn 0 %d 1\n", nn)
+				}
+			}
+		}
+	}
+	pickForm := func() int {
+		forms := []int{0}
+		if nt > 0 {
+			forms = append(forms, 1, 1)
+		}
+		if nn > 0 {
+			forms = append(forms, 2, 2)
+		}
+		if nt > 0 && nn > 0 {
+			forms = append(forms, 3, 3, 3)
+		}
+		return hx.Pick(r, forms)
+	}
+	idx := func(n int) int { // old and new entries alike, the newest a little more often
+		if r.Chance(1, 4) {
+			return n
+		}
+		return r.Range(1, n)
+	}
+	corner := func(form int) string {
+		v, t, n := idx(nv), 1, 1
+		if nt > 0 {
+			t = idx(nt)
+		}
+		if nn > 0 {
+			n = idx(nn)
+		}
+		switch form {
+		case 0:
+			return strconv.Itoa(v)
+		case 1:
+			return fmt.Sprintf("%d/%d", v, t)
+		case 2:
+			return fmt.Sprintf("%d//%d", v, n)
+		}
+		return fmt.Sprintf("%d/%d/%d", v, t, n)
+	}
+	decl(3, r.Intn(2), r.Intn(2))
+	groups := r.Range(1, 3)
+	for g := 0; g < groups; g++ {
+		if g > 0 || r.Bool() {
+			b.WriteString("g " + hx.Pick(r, groupNames) + "\n")
+		}
+		uniform := r.Bool()
+		rounds := r.Range(2, 7)
+		for k := 0; k < rounds; k++ {
+			if k > 0 || r.Bool() {
+				decl(r.Intn(3), r.Intn(3), r.Intn(3))
+			}
+			if r.Chance(1, 6) {
+				b.WriteString("usemtl " + hx.Pick(r, []string{"m1", "m2"}) + "\n")
+			}
+			form := pickForm()
+			for f := r.Range(1, 3); f > 0; f-- {
+				if !uniform {
+					form = pickForm()
+				}
+				b.WriteString("f " + corner(form) + " " + corner(form) + " " + corner(form) + "\n")
+			}
+		}
+	}
+	run.Count("file:strip-declarations-between-faces")
+	return b.String()
+}
+
 func genFile(r *hx.Rng, run *hx.Run) string {
+	if r.Chance(1, 4) {
+		return genStrip(r, run)
+	}
 	var b strings.Builder
 	// ---- text layer: separators, line terminators, blanks and comments anywhere ----
 	sep := func() string {
@@ -597,6 +694,10 @@ func fixedFiles() []string {
 		v + "g a\ng b\nf 2 3 4\ng c\n",                                               // groups without faces
 		v + "g a\nf 1 2 3\ng a\nf 2 3 4\n",                                           // repeated names
 		v + "f 1 2 3\nusemtl a\nf 2 3 4\nusemtl a\nf 1 2 4\n",                        // faces before the first usemtl
+		// vertex data declared between the faces of one group (the corner table must not depend on how much is declared)
+		"v 0 0 0\nv 1 0 0\nv 0 1 0\nv 1 1 0\nvn 0 0 1\nf 1//1 2//1 3//1\nvn 0 1 0\nf 2//2 3//2 4//2\n",
+		"v 0 0 0\nv 1 0 0\nv 0 1 0\nv 1 1 0\nvt 0 0\nf 1/1 2/1 3/1\nvt 1 1\nf 2/2 3/2 4/2\nvt 0 1\nvn 0 0 1\nf 1/3/1 2/2/1 4/1/1\n",
+		"v 0 0 0\nv 1 0 0\nv 0 1 0\nf 1 2 3\nv 1 1 0\nvn 0 0 1\nf 2//1 3//1 4//1\ng b\nvn 0 1 0\nvt 0 0\nf 1/1/2 2/1/1 3/1/2\nvt 1 1\nf 1/2/1 2/1/2 4/2/2\n",
 		v,                                                                            // no face at all
 		v + "g a\nf 1 2 4 3\nf 1 2 3\n",                                             // quad: only its first triangle is read
 		v + "g a\nf 1 2\n",                                                          // too few corners: panic
